@@ -18,4 +18,15 @@ Definition register (r : N) (bits : list bool) : N := fold_left step bits r.
 Definition crc (bs : bytes) : N := register init (bits_of bs).
 (* what a receiver checks: the register is zero after the message followed by its CRC *)
 Definition residue_ok (section : bytes) : Prop := crc section = 0.
+
+(* The same checksum in the usual byte-at-a-time, table-driven formulation (a second textbook definition;
+   Proofs/CrcTable.v proves it equal to the bit-serial register on every byte string):
+   table[i] = the register after clocking eight zero bits from i << 24,
+   r := (r << 8 mod 2^32) xor table[(r >> 24) xor byte] *)
+Definition table_entry (i : N) : N := register (i * 16777216) [false; false; false; false; false; false; false; false].
+Fixpoint nrange (k : N) (n : nat) : list N := match n with O => [] | S m => k :: nrange (k + 1) m end.
+Definition table : list N := map table_entry (nrange 0 256).
+Definition table_step (r b : N) : N :=
+  N.lxor ((r * 256) mod 4294967296) (nth (N.to_nat (N.lxor (r / 16777216) b)) table 0).
+Definition crc_tab (bs : bytes) : N := fold_left table_step bs init.
 End Crc32.
